@@ -2,13 +2,17 @@
    Property theorems only; proofs live in Proof/MsmProofs.v (configuration dataflow, inherited
    clauses), Proof/MsmSpectrum.v (eigenspectrum post-processing, propagation) and
    Proof/MsmReal.v (implied timescales over R).  Gen/MsmCfgGen.v (init, fit, config, load_init,
-   imp_pipeline) is regenerated from enspara/msm/msm.py and enspara/msm/timescales.py on every run. *)
-From Coq Require Import List ZArith QArith Bool.
-From EV Require Import MsmBase MsmCfgGen Msm MsmProofs.
+   imp_pipeline) is regenerated from enspara/msm/msm.py and enspara/msm/timescales.py on every run.
+   Partial: the eigen-solver (its output is a hypothesis of the spectral theorems) and the file
+   formats of save/load (checked by execution only) are trusted. *)
+From Coq Require Import List ZArith QArith Bool Permutation Sorted Reals.
+From EV Require Import MsmBase MsmCfgGen Msm MsmProofs MsmSpectrum MsmReal.
 From EV Require Counts Trim Builders.
 Import ListNotations.
 
-(* "with the same lag time, sliding-window setting, state count and trimming choice": every
+(* ===== the estimator and its configuration =====
+
+   "with the same lag time, sliding-window setting, state count and trimming choice": every
    constructor argument is the value of the attribute of the same name (defect D11: on the
    unrepaired tree the generated init has a_sliding_window := true and this is not provable). *)
 Theorem c16_init_keeps_args : forall lag m trim sl maxn,
@@ -18,6 +22,12 @@ Theorem c16_init_keeps_args : forall lag m trim sl maxn,
 Proof. exact init_keeps_args. Qed.
 Print Assumptions c16_init_keeps_args.
 
+(* a builder given by name is the builder function of that name *)
+Theorem c16_method_by_name_or_function : forall lag n trim sl maxn,
+  init lag (ByName n) trim sl maxn = init lag (ByCallable (builders_getattr n)) trim sl maxn.
+Proof. exact method_by_name_or_function. Qed.
+Print Assumptions c16_method_by_name_or_function.
+
 (* each attribute reaches the call of fit that consumes it *)
 Theorem c16_fit_uses_cfg : forall X self a,
   msm_fit X self a =
@@ -26,16 +36,218 @@ Proof. exact fit_uses_cfg. Qed.
 Print Assumptions c16_fit_uses_cfg.
 
 (* "Fitting the MSM estimator yields the same counts, transition probabilities, populations and
-   state mapping as composing the counting, trimming and builder functions" *)
+   state mapping as composing the counting, trimming and builder functions" -- for all
+   assignments, lag times, builders, trimming on/off, sliding window on/off, state counts;
+   errors included (both sides None together) *)
 Theorem c16_fit_eq_pipeline : forall X lag m trim sl maxn a,
   msm_estimator X lag m trim sl maxn a = pipeline X lag sl maxn trim (resolve_method m) a.
 Proof. exact fit_eq_pipeline. Qed.
 Print Assumptions c16_fit_eq_pipeline.
 
+(* state mapping, trimming off: identity on the states of the count matrix (C11) *)
+Theorem c16_mapping_identity_when_untrimmed : forall X lag sl maxn b a r res,
+  pipeline X lag sl maxn false b a = Some (r, res) ->
+  exists C, counts_fn a lag maxn sl = Some C /\
+    Trim.tr_keep r = seq 0 (length C) /\
+    Trim.tr_to_original r = combine (seq 0 (length C)) (seq 0 (length C)) /\
+    Trim.tr_to_mapped r = combine (seq 0 (length C)) (seq 0 (length C)) /\
+    call_builder X b C = Some res.
+Proof. exact mapping_identity_when_untrimmed. Qed.
+Print Assumptions c16_mapping_identity_when_untrimmed.
+
+(* trimming on: mapping and counts are exactly trim_disconnected's (threshold 1, renumbering),
+   whose properties are the theorems of C11 *)
+Theorem c16_trimmed_fit_is_trim_disconnected : forall X lag sl maxn b a,
+  pipeline X lag sl maxn true b a =
+  match counts_fn a lag maxn sl with
+  | None => None
+  | Some C =>
+      match Trim.trim_disconnected 1 C true coo with
+      | None => None
+      | Some r => option_map (fun res => (r, res)) (call_builder X b (Trim.tr_counts r))
+      end
+  end.
+Proof. exact trimmed_fit_is_trim_disconnected. Qed.
+Print Assumptions c16_trimmed_fit_is_trim_disconnected.
+
+(* the counts the builder receives are the lagged pair counts of C03 for the estimator's own
+   lag / window / state count *)
+Theorem c16_fit_counts_entry : forall a lag maxn sl C (i j : nat),
+  counts_fn a lag maxn sl = Some C ->
+  (i < Z.to_nat (Counts.n_states maxn a))%nat -> (j < Z.to_nat (Counts.n_states maxn a))%nat ->
+  (1 <= lag)%Z /\
+  Trim.entry C i j = Z.of_nat (Counts.count_pair (Counts.all_pairs sl lag a) (Z.of_nat i) (Z.of_nat j)).
+Proof. exact fit_counts_entry. Qed.
+Print Assumptions c16_fit_counts_entry.
+
+Theorem c16_fit_rejects_bad_lag : forall X lag m trim sl maxn a,
+  (lag < 1)%Z -> msm_estimator X lag m trim sl maxn a = None.
+Proof. exact fit_rejects_bad_lag. Qed.
+Print Assumptions c16_fit_rejects_bad_lag.
+
+(* ===== save / load =====
+   "saving then loading it gives an equal model", configuration part: the config dict written by
+   save, fed to the constructor by load, rebuilds the same attributes (on the tree before commit
+   67421b8 config had no max_n_states key and this is not provable).  The numeric files are
+   trusted formats, checked by execution. *)
+Theorem c16_config_roundtrip : forall lag m trim sl maxn,
+  load_init (config (init lag m trim sl maxn)) = Some (init lag m trim sl maxn).
+Proof. exact config_roundtrip. Qed.
+Print Assumptions c16_config_roundtrip.
+
+Theorem c16_loaded_estimator_refits_identically : forall X lag m trim sl maxn a s',
+  load_init (config (init lag m trim sl maxn)) = Some s' ->
+  msm_fit X s' a = msm_estimator X lag m trim sl maxn a.
+Proof. exact loaded_estimator_refits_identically. Qed.
+Print Assumptions c16_loaded_estimator_refits_identically.
+
+(* ===== spectrum =====
+   "returns real eigenvalues in descending order": the returned values are the real parts of the
+   solver's spectrum, sorted descending, cut to n_eigs *)
+Theorem c16_eig_post_sorted : forall ne vals vecs ev V,
+  eig_post ne vals vecs = Some (ev, V) ->
+  StronglySorted desc ev /\
+  exists full, Permutation full (map re vals) /\ StronglySorted desc full /\
+               ev = firstn (n_take ne vals) full.
+Proof. exact eig_post_sorted. Qed.
+Print Assumptions c16_eig_post_sorted.
+
+(* "with leading value one" *)
+Theorem c16_eig_post_leading_one : forall ne vals vecs ev V,
+  eig_post ne vals vecs = Some (ev, V) ->
+  (exists z, In z vals /\ re z == 1) -> (forall z, In z vals -> re z <= 1) ->
+  exists ev', ev = hd 0 ev :: ev' /\ hd 0 ev == 1.
+Proof. exact eig_post_leading_one. Qed.
+Print Assumptions c16_eig_post_leading_one.
+
+(* normalisation of the first vector *)
+Theorem c16_eig_post_first_sums_to_one : forall ne vals vecs ev V,
+  eig_post ne vals vecs = Some (ev, V) -> exists v0 V', V = v0 :: V' /\ Builders.qsum v0 == 1.
+Proof. exact eig_post_first_sums_to_one. Qed.
+Print Assumptions c16_eig_post_first_sums_to_one.
+
+(* "whose left eigenvector is the stationary distribution" -- conditional on the (trusted)
+   solver returning left eigenpairs and on the spectrum of a stochastic matrix *)
+Theorem c16_eig_post_stationary : forall T ne vals vecs ev V,
+  eig_post ne vals vecs = Some (ev, V) ->
+  (forall k, (k < length vals)%nat -> left_eig T (nth k vals c0) (nth k vecs [])) ->
+  (exists z, In z vals /\ re z == 1) ->
+  (forall z, In z vals -> re z <= 1) ->
+  (forall z, In z vals -> re z == 1 -> im z == 0) ->
+  exists pi V' ev',
+    V = pi :: V' /\ ev = hd 0 ev :: ev' /\ hd 0 ev == 1 /\
+    length pi = length T /\ Builders.qsum pi == 1 /\
+    forall j, (j < length T)%nat -> Builders.vecmat pi T j == nth j pi 0.
+Proof. exact eig_post_stationary. Qed.
+Print Assumptions c16_eig_post_stationary.
+
+Theorem c16_eig_post_rejects_small_n_eigs : forall k vals vecs,
+  (k < 2)%Z -> eig_post (Some k) vals vecs = None.
+Proof. exact eig_post_rejects_small_n_eigs. Qed.
+Print Assumptions c16_eig_post_rejects_small_n_eigs.
+
+(* ===== implied timescales =====
+   the matrix whose spectrum is taken is the function pipeline's for that lag time *)
+Theorem c16_imp_uses_pipeline : forall X b a lag ns sl trim,
+  imp_tprobs X b a lag ns sl trim =
+  option_map (fun r : fit_result => snd (fst (snd r))) (pipeline X lag sl (Some ns) trim b a).
+Proof. exact imp_uses_pipeline. Qed.
+Print Assumptions c16_imp_uses_pipeline.
+
+(* "implied timescales equal minus the lag time over the log of the corresponding eigenvalue"
+   (the stationary eigenvalue dropped); over R: uses the standard library's real-number axioms *)
+Theorem c16_imp_times_nth : forall lag ev k, (S k < length ev)%nat ->
+  nth k (imp_times lag ev) 0%R = (- lag / ln (nth (S k) ev 1))%R.
+Proof. exact imp_times_nth. Qed.
+Print Assumptions c16_imp_times_nth.
+
+(* sign lemma: decaying modes have positive timescales *)
+Theorem c16_imp_time_positive : forall lag lam, (0 < lag)%R -> (0 < lam < 1)%R -> (0 < imp_time lag lam)%R.
+Proof. exact imp_time_positive. Qed.
+Print Assumptions c16_imp_time_positive.
+
+(* descending eigenvalues give descending timescales *)
+Theorem c16_imp_time_monotone : forall lag l1 l2, (0 < lag)%R -> (0 < l1)%R -> (l1 < l2)%R -> (l2 < 1)%R ->
+  (imp_time lag l1 < imp_time lag l2)%R.
+Proof. exact imp_time_monotone. Qed.
+Print Assumptions c16_imp_time_monotone.
+
+Theorem c16_imp_time_inverts_decay : forall lag lam, (0 < lam < 1)%R ->
+  exp (- lag / imp_time lag lam) = lam \/ lag = 0%R.
+Proof. exact imp_time_inverts_decay. Qed.
+Print Assumptions c16_imp_time_inverts_decay.
+
+(* ===== propagation =====
+   "propagating an ensemble n steps equals n multiplications by the transition matrix" *)
+Theorem c16_propagate_power : forall T p n j,
+  length p = length T -> (j < length T)%nat ->
+  nth j (iterate T p n) 0 == Builders.vecmat p (mpow T n) j.
+Proof. exact propagate_power. Qed.
+Print Assumptions c16_propagate_power.
+
+(* synthetic_ensemble(T, p0, n_steps): n_steps - 1 steps; row k of the output is p0 . T^k *)
+Theorem c16_ensemble_is_power : forall T p0 n_steps p obs,
+  ensemble T p0 n_steps = Some (p, obs) -> sq_ok T p0 = true ->
+  let n := n_iter n_steps in
+  length obs = S n /\
+  (forall j, (j < length T)%nat -> nth j p 0 == Builders.vecmat p0 (mpow T n) j) /\
+  (forall k j, (k <= n)%nat -> (j < length T)%nat ->
+     nth j (nth k obs []) 0 == Builders.vecmat p0 (mpow T k) j).
+Proof. exact ensemble_is_power. Qed.
+Print Assumptions c16_ensemble_is_power.
+
+Theorem c16_ensemble_steps : forall n_steps, (1 <= n_steps)%Z -> Z.of_nat (n_iter n_steps) = (n_steps - 1)%Z.
+Proof. exact ensemble_steps. Qed.
+Print Assumptions c16_ensemble_steps.
+
+Theorem c16_ensemble_obs_is_dot : forall T p0 n_steps ob p series,
+  ensemble_obs T p0 n_steps ob = Some (p, series) ->
+  p = iterate T p0 (n_iter n_steps) /\
+  length series = S (n_iter n_steps) /\
+  forall k, (k <= n_iter n_steps)%nat -> nth k series 0 = dot (iterate T p0 k) ob.
+Proof. exact ensemble_obs_is_dot. Qed.
+Print Assumptions c16_ensemble_obs_is_dot.
+
+Theorem c16_ensemble_rejects_misshaped : forall T p0 n_steps,
+  sq_ok T p0 = false -> (2 <= n_steps)%Z -> ensemble T p0 n_steps = None.
+Proof. exact ensemble_rejects_misshaped. Qed.
+Print Assumptions c16_ensemble_rejects_misshaped.
+
+(* a row-stochastic matrix conserves the ensemble's total probability *)
+Theorem c16_step_conserves_total : forall T p,
+  Builders.is_square T = true -> length p = length T ->
+  (forall i, (i < length T)%nat -> Builders.qsum (Builders.row T i) == 1) ->
+  Builders.qsum (step T p) == Builders.qsum p.
+Proof. exact step_conserves_total. Qed.
+Print Assumptions c16_step_conserves_total.
+
+(* ===== non-vacuity ===== *)
+(* a trimmed, strided fit (states 1,3 kept and renumbered 0,1), and a rejected lag time *)
 Example c16_example_fit :
-  option_map (fun r : fit_result => (Trim.tr_keep (fst r), fst (fst (snd r))))
+  option_map (fun r : fit_result => (Trim.tr_keep (fst r), Builders.result_red (Some (snd r))))
     (msm_estimator [] 2 (ByName Normalize) true false None [[0; 1; 1; 0; 1; 3; 3; 0; 1; 0]; [2; 2; 2]]%Z)
-  = Some ([0; 1]%nat, [[0; 1]; [0; 1]]%Q)
+  = Some ([1; 3]%nat, Some ([[1; 1]; [1; 0]], [[1 # 2; 1 # 2]; [1; 0]], Some [2 # 3; 1 # 3]))
   /\ msm_estimator [] 0 (ByName Normalize) true false None [[0; 1]]%Z = None.
 Proof. vm_compute. split; reflexivity. Qed.
 Print Assumptions c16_example_fit.
+
+(* the hypotheses of c16_eig_post_stationary hold for the 4-cycle (eigenvalues i, -1, 1, -i) *)
+Example c16_example_spectrum_hypotheses :
+  (forall k, (k < length cycle4_vals)%nat -> left_eig cycle4 (nth k cycle4_vals c0) (nth k cycle4_vecs [])) /\
+  ((exists z, In z cycle4_vals /\ re z == 1) /\ (forall z, In z cycle4_vals -> re z <= 1) /\
+   (forall z, In z cycle4_vals -> re z == 1 -> im z == 0)).
+Proof. exact (conj cycle4_pairs cycle4_spectrum_facts). Qed.
+Print Assumptions c16_example_spectrum_hypotheses.
+
+Example c16_example_spectrum :
+  option_map (fun r => (map Qred (fst r), Builders.mat_red (snd r))) (eig_post None cycle4_vals cycle4_vecs)
+  = Some ([1; 0; 0; -1], [[1 # 4; 1 # 4; 1 # 4; 1 # 4]; [1; 0; -1; 0]; [1; 0; -1; 0]; [2; -2; 2; -2]]).
+Proof. vm_compute. reflexivity. Qed.
+Print Assumptions c16_example_spectrum.
+
+Example c16_example_ensemble :
+  ensemble [[1 # 2; 1 # 2]; [1 # 4; 3 # 4]] [1; 0] 3 =
+    Some ([192 # 512; 320 # 512], [[1; 0]; [4 # 8; 4 # 8]; [192 # 512; 320 # 512]])
+  /\ map (map Qred) (mpow [[1 # 2; 1 # 2]; [1 # 4; 3 # 4]] 2) = [[3 # 8; 5 # 8]; [5 # 16; 11 # 16]].
+Proof. vm_compute. split; reflexivity. Qed.
+Print Assumptions c16_example_ensemble.
